@@ -4,6 +4,7 @@
 
 #include <stdlib.h>
 #include <string.h>
+#include <limits.h>
 
 #include "object.h"
 #include "object_io.h"
@@ -302,6 +303,11 @@ static int sbdf_read_objects(FILE* f, sbdf_valuetype v, int count, sbdf_object**
 			sbdf_obj_destroy(t);
 			return SBDF_ERROR_UNKNOWN_TYPEID;
 		}
+		if (count > INT_MAX / sz)
+		{
+			sbdf_obj_destroy(t);
+			return SBDF_ERROR_INVALID_SIZE;
+		}
 		t->data = malloc(sz * count);
 		if (!t->data)
 		{
@@ -580,6 +586,10 @@ static int sbdf_skip_objects(FILE* f, sbdf_valuetype v, int c, int packed_array)
 		else if (sz == 0)
 		{
 			return SBDF_ERROR_UNKNOWN_TYPEID;
+		}
+		if (c > INT_MAX / sz)
+		{
+			return SBDF_ERROR_INVALID_SIZE;
 		}
 		if (fseek(f, c * sz, SEEK_CUR))
 		{
